@@ -361,4 +361,17 @@ func (sm *SessionManager) doStore()
   ghost at select-case[2]: gStoreReceived := gStoreReceived + 1
   ghost at call put: gStorePuts := gStorePuts + 1
   ghost at call put: gStoreFaithful := gStoreFaithful && key == sessionKeyOf(kv.key) && value == kv.value
+
+// ---- C16: deleting a session (admin endpoint -> storage delete -> watch event) disconnects that client ----
+// whatever else is in the storage by then: the registered connection of that client id is closed if it is still
+// connected, and the id is unregistered
+ghost var gDelClosed int     // the client object deleteSession closed (0: none)
+func (b *Broker) deleteSession(clientID string)
+  requires b != nil && b.spec != nil
+  modifies gDelClosed, entries(b.clients), allof("map<string,*object/mqttproxy.Client>#dom"), allof("map<string,*object/mqttproxy.Client>#val"), allof("map<string,*object/mqttproxy.Client>#card")
+  ensures the-client-id-is-unregistered: !(clientID in b.clients)
+  ensures a-connected-registration-is-closed: old(clientID in b.clients) && old(b.clients[clientID].statusFlag) != Disconnected ==> gDelClosed == old(ref(b.clients[clientID]))
+  ensures other-registrations-are-kept: forall c string :: c != clientID ==> ((c in b.clients) <==> old(c in b.clients)) && b.clients[c] == old(b.clients[c])
+  ghost at entry: gDelClosed := 0
+  ghost at call[1] close: gDelClosed := ref(c)
 @*/
